@@ -203,3 +203,15 @@ func deliver(data []byte) io.Reader {
 
 // grown: what a caller gets who appends to a slice it was given (the append goes into the slice's spare capacity if it has any)
 func grown(b []byte) []byte { return append(b, '!', '?') }
+
+// failedReadsFirst: when set (per session), every recorded read of the codec drivers is preceded by complete iterations over a few
+// malformed texts of the same format: a failed parse must leave nothing behind that a later reader could pick up.
+var failedReadsFirst bool
+
+var malformedTexts = map[string][]string{
+	"fasta":  {"junk before the first record\n>x\nAC\n", ">a\nAC\n>"},
+	"fastq":  {"@a\nACGT\n+\nII\n@b\nAC\n+\nII\n", "@a\nAC", "a\nAC\n+\nII\n"},
+	"sam":    {"x\ty\n", "q\tz\tr\t1\t0\t*\t*\t0\t0\tA\t*\tXX:i:x\n"},
+	"bed":    {"c\tx\t2\n", "c\t1\t2\nc\t1\n", "c\t1"},
+	"newick": {"(a:1,b:x);", "((a,b)", "a)b;", "(a,b)'c", "(a:1:2);"},
+}
